@@ -332,6 +332,14 @@ def _encoder(cls, file, fn_off, fn_on, refractory):
             c.require(dt2 > 0)
             c.setattr(e, "dt", dt2)
             c.ensure("derived_refractory_period_follows_dt", num(c.getattr(e, "refrac")) == (dt2.z if rmode == "none" else kw["refrac"].z))
+            # a refractory period ASSIGNED later is a given one from then on: it stays when the step time changes again
+            r3, dt3 = c.real("refrac_assigned_later"), c.real("dt3")
+            c.require(r3 >= 0, dt3 > 0)
+            if kw["compensate"]:
+                c.require(r3.z * freq.z < 1000)  # the encoder's own refrac-frequency compatibility test
+            c.setattr(e, "refrac", r3)
+            c.setattr(e, "dt", dt3)
+            c.ensure("assigned_refractory_period_is_kept_across_a_dt_change", z3.And(num(c.getattr(e, "refrac")) == r3.z, num(c.getattr(e, "dt")) == dt3.z))
         c.canary("canary_unscaled", z3.And(a[0].f == x.f, freq.z != 1, x.f != 0))
 
     return enc
@@ -737,4 +745,7 @@ MUTANTS += [
     dict(file=EN, func="homogeneous_poisson_exp_interval", old="            * res\n            + refrac\n        )", new="            * res\n        )", contracts=[RAST], name="offline raster: intervals without the refractory offset"),
     dict(file=EN, func="homogeneous_poisson_exp_interval", old="        res = res.clamp_max_(steps).long()", new="        res = res.clamp_max_(steps - 1).long()", contracts=[RAST], name="offline raster: times beyond the train land in the last real row instead of the discarded one"),
     dict(file=EN, func="homogeneous_poisson_exp_interval", old="        res = res.new_zeros(steps + 1, *inputs.shape, dtype=torch.bool).scatter_(", new="        res = res.new_zeros(steps + 2, *inputs.shape, dtype=torch.bool).scatter_(", contracts=[RAST], name="offline raster: one row too many"),
+]
+MUTANTS += [
+    dict(file=EM, func="RefractoryStepMixin.refrac@setter", old="            self.__derive_refrac = False\n", new="", contracts=["HomogeneousPoissonEncoder.forward"], name="seed C19f: an assigned refractory period is still treated as derived from dt"),
 ]
